@@ -87,7 +87,12 @@ def main():
                             cm = parallel_backend(kw["backend"], n_jobs=kw["n_jobs"])
                         else:
                             cm = parallel_config(**kw)
-                        cm.__enter__(); stack.append(cm)
+                        cm.__enter__(); stack.append(("with", cm))
+                    elif cmd[0] == "install":
+                        # the configuration object used as a plain statement (no with block): active at once, never unregistered
+                        kw = kwargs_of(cmd[1])
+                        cm = parallel_backend(kw["backend"], n_jobs=kw["n_jobs"]) if set(kw) == {"backend", "n_jobs"} and cmd[2] % 2 == 0 else parallel_config(**kw)
+                        stack.append(("loose", cm))
                     elif cmd[0] == "fail_enter":
                         kw = kwargs_of(cmd[1]); kw["backend"] = "no_such_backend"
                         try:
@@ -96,7 +101,8 @@ def main():
                         except ValueError:
                             pass
                     elif cmd[0] == "exit":
-                        cm = stack.pop()
+                        kind_, cm = stack.pop()
+                        while kind_ == "loose": kind_, cm = stack.pop()        # leaving the innermost with block
                         if cmd[1] == "exception":
                             try: raise KeyError("user error")
                             except KeyError: cm.__exit__(*sys.exc_info())
@@ -111,12 +117,14 @@ def main():
                 except BaseException as ex:
                     res = {"exc": repr(ex)[:200]}
                 done.put(res)
-            for cm in reversed(stack): cm.__exit__(None, None, None)
+            for kind_, cm in reversed(stack):
+                if kind_ == "with": cm.__exit__(None, None, None)
+                else: cm.unregister()
         ths = {t: threading.Thread(target=runner, args=(t,)) for t in (1, 2)}
         for t in ths.values(): t.start()
         for step, e in enumerate(prog):
             a = e["act"]
-            qs[a["t"]].put(("enter", a["f"], step) if a["op"] == "enter" else ("fail_enter", a["f"], step) if a["op"] == "fail_enter" else ("exit", a["how"]))
+            qs[a["t"]].put((a["op"], a["f"], step) if a["op"] in ("enter", "fail_enter", "install") else ("exit", a["how"]))
             r = done.get()
             if isinstance(r, dict): problems.append({"step": step, "kind": "action_raised", "detail": r["exc"]}); break
             for t in (1, 2):
